@@ -482,6 +482,21 @@ pub fn run_datagram(a: &Args) {
     grams.push(("valid query".into(), valid_query.clone()));
     grams.push(("valid srv query".into(), srv_query.clone()));
     grams.push(("valid response".into(), valid_response.clone()));
+    // queries that carry known answers (RFC 6762 7.1): copies of what the node serves, with TTL 0 / 1 / 60 / the
+    // served TTL, and records it does not serve
+    for ttl in [0u32, 1, 60, 120, u32::MAX] {
+        let mut q = Packet::new_query(7);
+        q.questions.push(simple_dns::Question::new(Name::new_unchecked("_svc._tcp.local"), simple_dns::QTYPE::ANY, CLASS::IN.into(), false));
+        q.questions.push(simple_dns::Question::new(Name::new_unchecked("me._svc._tcp.local"), simple_dns::TYPE::A.into(), CLASS::IN.into(), true));
+        let full = Name::new_unchecked("me._svc._tcp.local");
+        let info = InstanceInformation::new("me".into()).with_ip_address(Ipv4Addr::new(10, 9, 9, 9).into()).with_port(9).with_attribute("k".into(), Some("v".into()));
+        for r in info.into_records(&full, ttl).unwrap() {
+            q.answers.push(r);
+        }
+        q.answers.push(ResourceRecord::new(Name::new_unchecked("_svc._tcp.local"), CLASS::IN, ttl, RData::PTR(PTR(full.clone()))));
+        q.answers.push(ResourceRecord::new(Name::new_unchecked("other._svc._tcp.local"), CLASS::IN, ttl, RData::A(A { address: 1 })));
+        grams.push(("valid query with known answers".into(), q.build_bytes_vec_compressed().unwrap()));
+    }
     let mut hostile_labels: Vec<Vec<u8>> = vec![vec![0xFFu8], vec![0xC3], vec![0x00], vec![b'.'], vec![b'\\'], vec![0xFF; 63], vec![b'a'; 63], b"me".to_vec(), vec![0xE9, 0x80]];
     // labels whose text rendering is longer than the label (every invalid byte becomes a 3-byte replacement
     // character, e-acute is 2 bytes, an emoji 4) behind 0..3 ASCII bytes: every alignment of char boundaries
